@@ -250,6 +250,7 @@ func (e *Executor) setupDefaults() {
 
 func (e *Executor) setupConcurrencyState() {
 	e.executionHashes = make(map[string]*taskExecution)
+	e.executionWaits = make(map[string][]string)
 
 	e.taskCallCount = make(map[string]*int32, e.Taskfile.Tasks.Len())
 	e.mkdirMutexMap = make(map[string]*sync.Mutex, e.Taskfile.Tasks.Len())
